@@ -12,7 +12,12 @@ sets, seeded supersets) into the real qp.transforms.decompose and records Decomp
     the transform produced whenever every applied rule declares exact resources;
   * CircuitEq.tla recomputes U(in) from the reference table and U(out) exactly in Z[zeta][1/2] and decides equality
     INCLUDING global phase (on the clean-work-wire columns when work wires are allocated).  Outputs with off-lattice
-    angles are compared numerically with TLC's exact U(in) (bridge)."""
+    angles are compared numerically with TLC's exact U(in) (bridge).
+The same generator enumerates the call shapes of the device-side entry point devices.preprocess.decompose (kind "dev": graph x
+skip_initial_state_prep x leading BasisState / StatePrep accepted or rejected by the stopping condition x remaining operators
+none / all accepted / some rejected); the driver instantiates each shape with seeded tapes, Trace_Decompose.tla (VDev) decides that
+every operator of the result is accepted by the stopping condition except an exempted leading state preparation (or a documented
+error is raised), and CircuitEq.tla decides the prepared state U|0..0> exactly against a reference preparation circuit."""
 import json
 import random
 import re
@@ -93,13 +98,14 @@ def custom_kwargs(kind):
 # ----------------------------------------------------------------------------------------- generators
 def configs():
     wd = lib.workdir("C12", "cfggen")
-    r = lib.run_tlc("DecompCfgGen", lib.cfg(invariants=["UniversalOK", "OptOK"]), wd)
+    r = lib.run_tlc("DecompCfgGen", lib.cfg(invariants=["UniversalOK", "OptOK", "DevOK"]), wd)
     lib.require_ok(r, "DecompCfgGen")
     sets = [j for j in r.json_lines if j["kind"] == "set"]
     opts = [j for j in r.json_lines if j["kind"] == "opt"]
-    if len(sets) != 128 or len(opts) != 2 * 4 * 3 * 4 * 2:
-        raise lib.MachineryError(f"DecompCfgGen emitted {len(sets)} sets / {len(opts)} option tuples")
-    return sets, opts, r
+    devs = sorted((j for j in r.json_lines if j["kind"] == "dev"), key=lambda j: json.dumps(j, sort_keys=True))
+    if len(sets) != 128 or len(opts) != 2 * 4 * 3 * 4 * 2 or len(devs) != 2 * 2 * (1 + 2 * 2) * 3:
+        raise lib.MachineryError(f"DecompCfgGen emitted {len(sets)} sets / {len(opts)} option tuples / {len(devs)} device call shapes")
+    return sets, opts, devs, r
 
 
 def random_op(rng, n, custom):
@@ -397,6 +403,101 @@ def shaped_cases(opts):
     return out
 
 
+# ----------------------------------------------------------------------------------------- devices.preprocess.decompose
+# state preparations with a reference preparation circuit over the reference gate table (local wire positions 1..k)
+PREP_REF = [
+    (1, [rec("Hadamard", [1])]),
+    (1, [rec("Hadamard", [1]), rec("S", [1])]),
+    (1, [rec("PauliX", [1]), rec("Hadamard", [1])]),
+    (2, [rec("Hadamard", [1]), rec("CNOT", [1, 2])]),
+    (2, [rec("Hadamard", [1]), rec("Hadamard", [2])]),
+    (2, [rec("Hadamard", [1]), rec("S", [1]), rec("CNOT", [1, 2])]),
+    (2, [rec("PauliX", [2]), rec("Hadamard", [1]), rec("CNOT", [1, 2])]),
+]
+
+
+def dev_cases(tier, seed, sets, devs):
+    """instantiate every TLC-enumerated call shape of devices.preprocess.decompose with seeded tapes"""
+    rng = random.Random(1250 + seed)
+    reps = 2 if tier == "quick" else 10
+    uni = [s for s in sets if s["universal"]]
+    out = []
+    for d in devs:
+        for _ in range(reps):
+            r = rng.random()
+            if r < 0.25:
+                tag, names = "ROTATIONS_PLUS_CNOT", ["RX", "RY", "RZ", "CNOT", "GlobalPhase"]
+            else:
+                s = rng.choice([x for x in uni if x["gp"] == (r < 0.9)])
+                tag, names = "U6:" + "+".join(s["gs"]), list(s["gs"])
+            n = rng.choice([2, 3, 3])
+            lead = None
+            if d["lead"] == "BasisState":
+                k = rng.randint(1, n)
+                ws = rng.sample(range(1, n + 1), k)
+                bits = [rng.randint(0, 1) for _ in range(k)]
+                if not any(bits):
+                    bits[rng.randrange(k)] = 1
+                lead = {"g": "BasisState", "w": ws, "bits": bits, "ref": [rec("PauliX", [w]) for w, b in zip(ws, bits) if b]}
+            elif d["lead"] == "StatePrep":
+                k, ref = rng.choice(PREP_REF)
+                ws = rng.sample(range(1, n + 1), k)
+                lead = {"g": "StatePrep", "w": ws, "local": ref, "ref": [dict(g, w=[ws[i - 1] for i in g["w"]]) for g in ref]}
+            rest = []
+            if d["rest"] == "accepted":
+                pool = [x for x in names if x != "GlobalPhase"]
+                for _ in range(rng.randint(1, 3)):
+                    g = rng.choice(pool)
+                    rest.append(rec(g, rng.sample(range(1, n + 1), ARITY[g]), [rng.choice(ANG)] if g in ROT1 else []))
+            elif d["rest"] == "mixed":
+                rest = [random_op(rng, n, None) for _ in range(rng.randint(1, 3))]
+                if all(decode_gate(g, MG).name in names for g in rest):
+                    g = rng.choice([x for x in ["S", "T", "SWAP", "PauliY", "CRZ", "IsingXX"] if x not in names])
+                    rest.insert(rng.randint(0, len(rest)), rec(g, rng.sample(range(1, n + 1), ARITY[g]), [rng.choice(ANG)] if g in ROT2 else []))
+            out.append({"d": {k_: d[k_] for k_ in ("graph", "skip", "lead", "leadok", "rest")}, "keep": d["keep"], "mustchange": d["mustchange"],
+                        "names": names, "gs_tag": tag, "n": n, "lead": lead, "rest": rest, "meas": rng.random() < 0.5})
+    return out
+
+
+def apply_dev_case(case):
+    """run the real devices.preprocess.decompose; -> observation dict"""
+    from pennylane.devices.preprocess import decompose as dev_decompose
+    d, n, lead = case["d"], case["n"], case["lead"]
+    ops = []
+    if lead is not None:
+        wires = [w - 1 for w in lead["w"]]
+        if lead["g"] == "BasisState":
+            ops.append(qp.BasisState(np.array(lead["bits"]), wires=wires))
+        else:
+            vec = bridge.circuit_unitary(lead["local"], len(wires), MG)[:, 0]
+            ops.append(qp.StatePrep(np.asarray(vec), wires=wires))
+    ops += [decode_gate(g, MG) for g in case["rest"]]
+    mps = [qp.expval(qp.Z(0)), qp.probs(wires=list(range(n)))] if case["meas"] else [qp.expval(qp.Z(0) @ qp.X(n - 1))]
+    tape = qp.tape.QuantumScript(ops, mps)
+    accepted = set(case["names"]) | ({d["lead"]} if d["leadok"] else set())
+    stop = lambda op: op.name in accepted
+    kw = {"target_gates": set(case["names"]), "num_work_wires": 0} if d["graph"] else {}
+    obs = {"err": "", "errmsg": "", "out": None, "tape": tape, "stop": stop, "warned": []}
+    (qp.decomposition.enable_graph if d["graph"] else qp.decomposition.disable_graph)()
+    try:
+        with warnings.catch_warnings(record=True) as wl:
+            warnings.simplefilter("always")
+            try:
+                (out,), _ = dev_decompose(tape, stop, skip_initial_state_prep=d["skip"], **kw)
+                obs["out"] = out
+            except Exception as e:  # classified by the trace spec
+                obs["err"], obs["errmsg"] = type(e).__name__, str(e)[:300]
+        if any("GlobalPhase is not assumed to have a decomposition" in str(w.message) for w in wl):
+            obs["warned"] = ["GlobalPhase"]
+    finally:
+        qp.decomposition.disable_graph()
+    return obs
+
+
+def _is_prep(o):
+    return isinstance(o, qp.operation.StatePrepBase)
+
+
 def _cols(n, nw):
     return [c for c in range(1 << n) if c % (1 << nw) == 0] if nw else []
 
@@ -405,7 +506,7 @@ def run(tier, seed):
     import time
     t0 = time.time()
     phase = {}
-    sets, opts, gres = configs()
+    sets, opts, devs, gres = configs()
     phase["cfggen"] = round(time.time() - t0, 1)
     cases = shaped_cases(opts) + gen_cases(tier, seed, sets, opts)
     viol, traces, tmeta = [], [], []
@@ -524,6 +625,79 @@ def run(tier, seed):
         if not done:
             skip("input not encodable")
     phase["apply"] = round(time.time() - t0 - phase["cfggen"], 1)
+    # ---- device-side entry point: every TLC-enumerated call shape, seeded instances
+    st.update({"dev_calls": 0, "dev_returned": 0, "dev_errors": {}, "dev_lead_only_returned": 0, "dev_lead_only_decomposed": 0, "dev_prep_kept": 0, "dev_keep_drift": 0,
+               "dev_unchanged": 0, "dev_state_cases": 0})
+    for case in dev_cases(tier, seed, sets, devs):
+        d, n = case["d"], case["n"]
+        obs = apply_dev_case(case)
+        st["dev_calls"] += 1
+        tape, out, stop = obs["tape"], obs["out"], obs["stop"]
+        replay = {"entry": "devices.preprocess.decompose", "config": dict(d, custom="none"), "gate_set": case["gs_tag"], "n": n,
+                  "lead": case["lead"], "circuit": case["rest"], "ops": [repr(o) for o in tape.operations]}
+        fp = lambda ops_: [{"name": _name(o), "stop": bool(stop(o)), "prep": _is_prep(o)} for o in ops_]
+        traces.append({"kind": "dev", "d": d, "err": obs["err"], "warned": obs["warned"], "ins": fp(tape.operations), "out": fp(out.operations) if out is not None else [],
+                       "min": [repr(m) for m in tape.measurements],
+                       "mout": [repr(m) for m in (out if out is not None else tape).measurements]})
+        tmeta.append((replay, obs["errmsg"], [repr(o) for o in out.operations][:60] if out is not None else None))
+        if obs["err"]:
+            st["dev_errors"][obs["err"]] = st["dev_errors"].get(obs["err"], 0) + 1
+            continue
+        st["dev_returned"] += 1
+        st["dev_warn_path"] = st.get("dev_warn_path", 0) + bool(obs["warned"])
+        oo = list(out.operations)
+        same = [repr(o) for o in oo] == [repr(o) for o in tape.operations]
+        st["dev_unchanged"] += same
+        kept = bool(oo) and case["lead"] is not None and _is_prep(oo[0]) and qp.equal(oo[0], tape.operations[0])
+        st["dev_prep_kept"] += kept
+        if case["keep"] != kept:
+            st["dev_keep_drift"] += 1          # mechanism (an accepted preparation may be decomposed all the same): evidence only
+        if case["lead"] is not None and not d["skip"] and not d["leadok"] and d["rest"] != "mixed":
+            st["dev_lead_only_returned"] += 1      # only the leading preparation needs decomposing, and the call returned
+            st["dev_lead_only_decomposed"] += not same
+        if not same:
+            nontrivial.add((case["gs_tag"], json.dumps([case["lead"], case["rest"]], sort_keys=True), "dev", d["graph"], d["skip"], d["leadok"]))
+        # ---- prepared state: reference preparation + reference table vs the result, on |0..0> when a preparation leads
+        pre = list(case["lead"]["ref"]) if case["lead"] is not None else []
+        body_in = list(tape.operations)[1 if case["lead"] is not None else 0:]
+        body_out = oo[1:] if kept else oo
+        if any(_is_prep(o) for o in body_out):
+            skip("dev: state preparation left in the result")        # decided by the trace clause
+            continue
+        done = False
+        for lv in (4, 5):
+            wpos = wire_positions(list(range(n)))
+            try:
+                a = pre + [x for x in (encode_op(o, wpos, lv) for o in body_in) if x is not None]
+            except (OffLattice, KeyError, AttributeError):
+                continue
+            try:
+                recs, flt, info = decomp.flatten(body_out, wpos, lv)
+            except decomp.Skip as e:
+                skip("dev: " + " ".join(str(e).split(" ")[:3]))
+                done = True
+                break
+            if len(wpos) != n:
+                skip("dev: work wires")
+                done = True
+                break
+            cs = [0] if case["lead"] is not None else []
+            if kept:
+                recs, flt = (pre + recs if recs is not None else None), pre + flt
+            if recs is not None:
+                ecases[lv].append({"n": n, "a": a, "cs": cs, "bs": [{"b": recs, "rel": "exact", "perm": []}]})
+                emeta[lv].append([replay, None, [repr(o) for o in oo][:60], "exact", cs, flt])
+                st["dev_state_cases"] += 1
+                done = True
+                break
+            if lv == 5:
+                ecases[lv].append({"n": n, "a": a, "cs": cs, "bs": [{"b": [], "rel": "emit", "perm": []}]})
+                emeta[lv].append([replay, flt, [repr(o) for o in oo][:60], "exact", cs, flt])
+                st["dev_state_cases"] += 1
+                done = True
+        if not done:
+            skip("dev: input not encodable")
+    phase["apply_dev"] = round(time.time() - t0 - phase["cfggen"] - phase["apply"], 1)
     # ---- cost cap per ring level: one gate on a 2^n x cols block costs n-independent ring products ~ 2^n * cols; the products
     #      of the M=5 ring are four times dearer than M=4.  The cheapest cases stay exact, the rest of the batch is decided
     #      numerically against TLC's exact U(in) (counted as bridged)
@@ -548,10 +722,17 @@ def run(tier, seed):
             neg_t.append(len(traces))
             traces.append(dict(t, out=t["out"] + [{"name": "NotAGate", "stop": False}]))
             tmeta.append(None)
+        elif t["kind"] == "dev":
+            continue
         elif t["kind"] == "estimate" and t["exact"] and t["act"]:
             neg_t.append(len(traces))
             traces.append(dict(t, act=[[t["act"][0][0], t["act"][0][1] + 1]] + t["act"][1:]))
             tmeta.append(None)
+    ndev = [i for i, t in enumerate(traces) if t["kind"] == "dev" and not t["err"]]
+    for i in ndev[::max(1, len(ndev) // 6)]:
+        neg_t.append(len(traces))
+        traces.append(dict(traces[i], out=traces[i]["out"] + [{"name": "NotAGate", "stop": False, "prep": False}]))
+        tmeta.append(None)
     neg_e = {4: [], 5: []}
     for lv in (4, 5):
         base = len(ecases[lv])
@@ -560,7 +741,9 @@ def run(tier, seed):
             if cs_["bs"][0]["rel"] == "emit":
                 continue
             neg_e[lv].append(len(ecases[lv]))
-            ecases[lv].append(dict(cs_, bs=[dict(cs_["bs"][0], b=cs_["bs"][0]["b"] + [rec("T", [1])])]))
+            # on the single column |0..0> (device entry point) a T on wire 1 may act trivially: corrupt the phase instead
+            bad = rec("GlobalPhase", [], [4]) if cs_["cs"] == [0] else rec("T", [1])
+            ecases[lv].append(dict(cs_, bs=[dict(cs_["bs"][0], b=cs_["bs"][0]["b"] + [bad])]))
             emeta[lv].append(None)
     # ---- TLC: discrete clauses
     wd = lib.workdir("C12", "trace")
@@ -577,7 +760,15 @@ def run(tier, seed):
             continue
         v = tv[i]
         if v.startswith("bad-case"):
-            raise lib.MachineryError(f"{v}: {traces[i]['c']}")
+            raise lib.MachineryError(f"{v}: {traces[i].get('c', traces[i].get('d'))} {m[0]['ops']}")
+        if v != "ok" and traces[i]["kind"] == "dev":
+            d = traces[i]["d"]
+            g = ("graph" if d["graph"] else "legacy") + (":skip-prep" if d["skip"] else ":no-skip-prep")
+            viol.append(Violation(key=f"preprocess-decompose:{v}:{g}" + (f":{traces[i]['err']}" if traces[i]["err"] else ""),
+                                  detail=f"devices.preprocess.decompose {v} ({g}) stopping condition accepts {m[0]['gate_set']}"
+                                         f"{' + ' + d['lead'] if d['leadok'] else ''} shape {d} circuit {m[0]['ops']} -> "
+                                         f"{m[2] if m[2] is not None else m[1]}", replay=m[0]))
+            continue
         if v != "ok":
             g = "graph" if traces[i]["c"]["graph"] else "legacy"
             if m[0]["config"].get("custom") == "nullphase":
@@ -614,6 +805,8 @@ def run(tier, seed):
                 continue
             replay, flt, outs, relname, cs, _ = m
             g = ("graph" if replay["config"]["graph"] else "legacy") + (":nullphase" if replay["config"]["custom"] == "nullphase" else "")
+            if replay.get("entry"):
+                g = "preprocess:" + g
             if clause == "overflow":
                 raise lib.MachineryError("ring overflow in CircuitEq")
             if flt is not None:
@@ -643,9 +836,12 @@ def run(tier, seed):
         raise lib.MachineryError(f"negative controls rejected: trace {nneg_t}/{len(neg_t)}, unitary {nneg_e}/{tot_neg_e}")
     if st["returned"] < st["calls"] // 3 or st["changed"] < st["calls"] // 4 or not st["estimate_exact"] or not st["typeerror_confirmed"]:
         raise lib.MachineryError(f"vacuous run: {st}")
+    if not st["dev_lead_only_returned"] or st["dev_returned"] < st["dev_calls"] // 3 or (not viol and not (st["dev_prep_kept"] and st["dev_state_cases"])):
+        raise lib.MachineryError(f"vacuous run (device entry point): {st}")
     cov = {"states": gres.distinct + r.distinct + est_["distinct"], "transitions": gres.generated + r.generated + est_["generated"],
-           "traces_validated_against_impl": len(traces) - len(neg_t), "evaluations": st["calls"], "distinct_nontrivial": len(nontrivial),
-           "rule": "configurations enumerated by TLC (128 gate sets over the six-gate universe, 192 option tuples) x the predefined gate sets x "
+           "traces_validated_against_impl": len(traces) - len(neg_t), "evaluations": st["calls"] + st["dev_calls"], "distinct_nontrivial": len(nontrivial),
+           "rule": "configurations enumerated by TLC (128 gate sets over the six-gate universe, 192 option tuples, 60 call shapes of "
+                   "devices.preprocess.decompose) x the predefined gate sets x "
                    "seeded circuits of <= 4(+1) operators on 2-4 wires; non-trivial = distinct (gate set, circuit, options) whose output "
                    "differs from the input",
            "samples": samples, "exhaustive": False, "exact_by_tlc": n_exact, "bridged_float": n_bridge,
@@ -655,5 +851,7 @@ def run(tier, seed):
         "emitted half / quarter angles stay on the lattice (M=4/5); other outputs are compared numerically (1e-7) with TLC's exact U(in)",
         "an operator left outside the gate set is accepted only under the documented warnings (no decomposition defined; graph unable to "
         "solve) or with a bounded max_expansion; RecursionError / DecompositionError / DecompositionUndefinedError count as decomposition errors",
+        "devices.preprocess.decompose: BasisState / StatePrep = the reference preparation circuit (X on the set bits; H / S / CNOT circuits "
+        "whose state TLC recomputes) applied to |0..0>, compared on that column only; the stopping condition is membership by name",
         "estimate clause: resource keys are the library's compressed representations of the produced operators; the estimate of a circuit is "
         "the sum over its operators (operators already accepted count as themselves)"])
